@@ -121,12 +121,7 @@ func TestC04Notify(t *testing.T) {
 							}
 						})
 					}
-					switch nc.Family {
-					case "reentrant":
-						if err := submit(0); err != nil {
-							return fmt.Errorf("first delivery failed: %v", err)
-						}
-					case "overlap":
+					overlapDeliver := func() {
 						// two deliverers; each waits until the tip is the parent of its
 						// block, so the second delivery starts while the first one's
 						// (slow) notification round is still running
@@ -153,6 +148,35 @@ func TestC04Notify(t *testing.T) {
 							}()
 						}
 						wg.Wait()
+					}
+					// the deliveries run under a watchdog: a listener that calls back
+					// into the manager must not block it (listeners run with the
+					// manager's lock released); 30 s against deliveries that take
+					// milliseconds
+					delivered := make(chan error, 1)
+					go func() {
+						delivered <- func() error {
+							switch nc.Family {
+							case "reentrant":
+								if err := submit(0); err != nil {
+									return fmt.Errorf("first delivery failed: %v", err)
+								}
+							case "overlap":
+								overlapDeliver()
+							}
+							return nil
+						}()
+					}()
+					select {
+					case derr := <-delivered:
+						if derr != nil {
+							return derr
+						}
+					case <-time.After(30 * time.Second):
+						mu.Lock()
+						n := len(got[0])
+						mu.Unlock()
+						return fmt.Errorf("the deliveries did not return within 30 s (%s, listener 0 was called %d time(s) so far and polls UpdatesSince from inside its callback): a notification round blocks the manager", map[bool]string{false: "AddBlocks", true: "AddValidatedV2Blocks"}[nc.Validated], n)
 					}
 					if firstErr != nil {
 						return firstErr
